@@ -3,6 +3,7 @@ package sym
 // extras.go: tier bounds, known-finding regions, witnesses, static label scan, pinned replay.
 
 import (
+	"golang.org/x/tools/go/ssa/ssautil"
 	"os"
 	"go/constant"
 	"math/big"
@@ -283,3 +284,40 @@ func (ex *Exec) declareInput(v *Term, label string) {
 	ex.InputLbl[v.ID] = label
 	ex.pinned(v, label)
 }
+
+func allFunctions(p *Program) map[*ssa.Function]bool {
+	return ssautilAllFunctions(p.Prog)
+}
+
+func registerShared(p *Program) {
+	I := p.Intrinsic
+	I[verifPkg+".MarkShared"] = func(ex *Exec, fr *frame, fn *ssa.Function, a []Value) Value {
+		var roots []Value
+		if s, _ := a[0].(*SliceV); s != nil {
+			for i := 0; i < s.Len; i++ {
+				roots = append(roots, s.A.E[s.Off+i].V)
+			}
+		}
+		ex.markShared(roots)
+		return nil
+	}
+	I[verifPkg+".SharedWrites"] = func(ex *Exec, fr *frame, fn *ssa.Function, a []Value) Value {
+		label := constStr(a[0], "SharedWrites label")
+		if ex.shared == nil {
+			return IntC(0)
+		}
+		for _, w := range ex.shared.writes {
+			ex.Asserts = append(ex.Asserts, AssertResult{Label: label + ": " + w, Holds: false, Result: Sat, Model: ex.model()})
+		}
+		return IntC(int64(len(ex.shared.writes)))
+	}
+	I[verifPkg+".SyncCensus"] = func(ex *Exec, fr *frame, fn *ssa.Function, a []Value) Value {
+		c := ex.P.syncCensus()
+		if len(c) > 0 {
+			panic(Inconclusive{"library code uses synchronisation; the access-set argument for data-race freedom does not apply: " + strings.Join(c, "; ")})
+		}
+		return nil
+	}
+}
+
+func ssautilAllFunctions(prog *ssa.Program) map[*ssa.Function]bool { return ssautil.AllFunctions(prog) }
